@@ -748,6 +748,111 @@ def run_ops(chk, seed, post_lines):
                 chk.traces_validated += 0
 
 
+def run_scaled(chk, seed):
+    """root / root_inv (+ the root it caches) / diagonalization with method="lanczos", float64, full Krylov dimension,
+    on matrices of scale 1e-4 … 1e3 and condition number up to 1e4.  All tolerances are RELATIVE to |A| resp. |A^-1| and
+    follow the DOCUMENTED jitter (1e-6 x the smallest diagonal entry of T): an absolute floor / clamp of the jitter, or a
+    jitter taken from another reference value, shows as soon as T has a diagonal entry well below 1."""
+    from linear_operator import settings
+    from linear_operator.operators import DenseLinearOperator
+    jit = float(settings.tridiagonal_jitter.value())
+    sizes = (3, 5) if chk.tier == "quick" else (3, 4, 5, 6)
+    combos = [(1e-4, 4.0), (1e-3, 4.0), (1e-3, 1e2), (1.0, 1e2), (1.0, 1e3), (1.0, 1e4), (1e3, 4.0), (1e3, 1e4), (1e-2, 1e3)]
+    for n in sizes:
+        for batch in ((), (2,)):
+            for (scale, kappa) in combos:
+                base = f"n={n}/b={'x'.join(map(str, batch)) or '-'}/scale={scale:g}/cond={kappa:g}/f64"
+                g = gen_for(seed, "scaled/" + base)
+                nb = 2 if batch else 1
+                mats = []
+                for _ in range(nb):
+                    u = torch.rand(n, generator=g, dtype=F64)
+                    expo = (torch.arange(n, dtype=F64) + 0.3 * u) / (n - 1 + 0.3)
+                    lam = scale * kappa ** (-expo)
+                    Q0 = orth(g, n)
+                    M = (Q0 * lam.unsqueeze(0)) @ Q0.T
+                    mats.append((M + M.T) / 2)
+                A = torch.stack(mats).reshape(*batch, n, n)
+                normA = float(torch.linalg.matrix_norm(A, 2).max())
+                Ainv = torch.linalg.inv(A)
+                normAinv = float(torch.linalg.matrix_norm(Ainv, 2).max())
+                eye = torch.eye(n, dtype=F64)
+                for what in ("root", "root_inv", "diag"):
+                    cid = f"C09/post-scaled/{what}/{base}"
+                    payload = {"kind": "scaled", "seed": seed, "cell": cid}
+                    rand_seed = int(torch.randint(0, 2 ** 31 - 1, (1,), generator=g))
+                    chk.case(cid)
+                    chk.count(f"post-scaled={what}")
+                    state = torch.random.get_rng_state()
+                    cached = None
+                    try:
+                        torch.manual_seed(rand_seed)
+                        op = DenseLinearOperator(A.clone())
+                        with settings.max_root_decomposition_size(n + 2), Tap() as tap:
+                            if what == "root":
+                                res = op.root_decomposition(method="lanczos").root.to_dense()
+                            elif what == "root_inv":
+                                res = op.root_inv_decomposition(method="lanczos").root.to_dense()
+                                ncalls = len(tap.calls)
+                                cached = op.root_decomposition().root.to_dense()  # cached by _root_inv_decomposition
+                                if len(tap.calls) != ncalls:
+                                    cached = None
+                            else:
+                                evals, evecs = op.diagonalization(method="lanczos")
+                                evecs = evecs.to_dense()
+                    except Exception as e:  # noqa: BLE001
+                        chk.violation(cid, f"raised {type(e).__name__}: {str(e)[:120]}", payload)
+                        continue
+                    finally:
+                        torch.random.set_rng_state(state)
+                    if len(tap.calls) < 1:
+                        chk.violation(cid, "lanczos_tridiag was not called", payload)
+                        continue
+                    q, t, _ = tap.calls[0]
+                    if q.shape[-1] != n:
+                        # the absolute 1e-6 of the break test stops small-norm problems early: not the subject here
+                        chk.count("scaled_discard=early-break")
+                        continue
+                    e1 = (q.mT @ q - eye).abs().max().item()
+                    e2 = (q.mT @ A @ q - t).abs().max().item()
+                    if e1 > 1e-8 or e2 > 1e-8 * normA:
+                        chk.violation(cid, f"witness (Q,T): QtQ-I={e1:.1e}, QtAQ-T={e2:.1e} (|A|={normA:.1e})", payload)
+                        continue
+                    Tj = jittered(t, jit)
+                    wj = torch.linalg.eigvalsh(Tj)
+                    if float(wj.min()) <= 0:
+                        chk.count("scaled_discard=nonpositive-ritz")
+                        continue
+                    target = q @ Tj @ q.mT
+                    jrel = jit * float(torch.diagonal(t, dim1=-1, dim2=-2).min(-1)[0].abs().max())
+                    if what == "root":
+                        rr = res @ res.mT
+                        e = (rr - target).abs().max().item()
+                        ea = (rr - A).abs().max().item()
+                        if e > 1e-9 * normA:
+                            chk.violation(cid, f"R Rt differs from Q (T + 1e-6 min(diag T) I) Qt by {e:.2e} = {e / normA:.1e} |A| (documented relative jitter)", payload)
+                        elif ea > 2 * jrel + 1e-9 * normA:
+                            chk.violation(cid, f"R Rt - A = {ea:.2e} = {ea / normA:.1e} |A|, documented jitter allows {jrel:.1e}", payload)
+                    elif what == "root_inv":
+                        rr = res @ res.mT
+                        inv_t = q @ torch.linalg.inv(Tj) @ q.mT
+                        e = (rr - inv_t).abs().max().item()
+                        if e > 1e-7 * normAinv:
+                            chk.violation(cid, f"inverse root: R Rt differs from Q (T + 1e-6 min(diag T) I)^-1 Qt by {e:.2e} = {e / normAinv:.1e} |A^-1|", payload)
+                            continue
+                        if cached is not None:
+                            cc = cached @ cached.mT
+                            e = (cc - target).abs().max().item()
+                            if e > 1e-9 * normA:
+                                chk.violation(cid.replace("/root_inv/", "/root_inv.cached_root/"), f"root cached by _root_inv_decomposition: R Rt differs from Q (T + jI) Qt by {e / normA:.1e} |A|", payload)
+                    else:
+                        rec = (evecs * evals.unsqueeze(-2)) @ evecs.mT
+                        e = (rec - target).abs().max().item()
+                        eo = (evecs.mT @ evecs - eye).abs().max().item()
+                        if e > 1e-9 * normA or eo > 1e-8:
+                            chk.violation(cid, f"diagonalization: V diag(e) Vt differs from Q (T + 1e-6 min(diag T) I) Qt by {e / normA:.1e} |A|; VtV-I={eo:.1e}", payload)
+
+
 def check_post(chk, post_lines):
     if not post_lines:
         return
@@ -786,7 +891,9 @@ def run_slq(chk, seed):
             try:
                 q, t = lanczos_tridiag(lambda x: A @ x, n, dtype=F64, device=A.device, matrix_shape=A.shape[-2:], batch_shape=A.shape[:-2], init_vecs=v)
                 evals, evecs = lanczos_tridiag_to_diag(t)
-                (ld, tr) = StochasticLQ(max_iter=n, num_random_probes=p).to_dense(A.shape[-2:], evals, evecs, [lambda x: x.log(), lambda x: x.reciprocal()])
+                (ld, tr, ti) = StochasticLQ(max_iter=n, num_random_probes=p).to_dense(
+                    A.shape[-2:], evals, evecs, [lambda x: x.log(), lambda x: x.reciprocal(), lambda x: x])
+                (tr_only,) = StochasticLQ(max_iter=n, num_random_probes=p).to_dense(A.shape[-2:], evals, evecs, [lambda x: x.reciprocal()])
             except Exception as e:  # noqa: BLE001
                 chk.violation(cid, f"raised {type(e).__name__}: {str(e)[:100]}", payload)
                 continue
@@ -796,9 +903,28 @@ def run_slq(chk, seed):
             invA = torch.linalg.inv(A)
             ld_ref = n / p * (u * (logA @ u)).sum((-2, -1))
             tr_ref = n / p * (u * (invA @ u)).sum((-2, -1))
-            e = max((ld - ld_ref).abs().max().item(), (tr - tr_ref).abs().max().item())
-            if e > 1e-7:
-                chk.violation(cid, f"SLQ estimate differs from (n/p) Σ uᵀ f(A) u by {e:.2e}", payload)
+            ti_ref = n / p * (u * (A @ u)).sum((-2, -1))
+            errs = {"log": (ld - ld_ref).abs().max().item(), "reciprocal": (tr - tr_ref).abs().max().item(),
+                    "identity": (ti - ti_ref).abs().max().item(), "reciprocal alone": (tr_only - tr_ref).abs().max().item()}
+            if max(errs.values()) > 1e-7:
+                chk.violation(cid, "SLQ estimate of several functions in one call differs from (n/p) Σ uᵀ f(A) u: "
+                              + ", ".join(f"{k}: {v:.1e}" for k, v in errs.items()), payload)
+            # orthonormal probes (p = n): the estimate is the exact trace — against dense traces
+            tcid = cid.replace("to_dense", "to_dense[traces]")
+            chk.case(tcid)
+            U = torch.stack([orth(g, n) for _ in range(max(1, A.reshape(-1, n, n).shape[0]))]).reshape(*batch, n, n)
+            try:
+                q2, t2 = lanczos_tridiag(lambda x: A @ x, n, dtype=F64, device=A.device, matrix_shape=A.shape[-2:], batch_shape=A.shape[:-2], init_vecs=U)
+                ev_, evc_ = lanczos_tridiag_to_diag(t2)
+                out = StochasticLQ(max_iter=n, num_random_probes=n).to_dense(A.shape[-2:], ev_, evc_, [lambda x: x.log(), lambda x: x.reciprocal(), lambda x: x])
+            except Exception as e:  # noqa: BLE001
+                chk.violation(tcid, f"raised {type(e).__name__}: {str(e)[:100]}", payload)
+                continue
+            refs = [torch.logdet(A), torch.diagonal(invA, dim1=-1, dim2=-2).sum(-1), torch.diagonal(A, dim1=-1, dim2=-2).sum(-1)]
+            es = [(o - r).abs().max().item() for o, r in zip(out, refs)]
+            shapes_ok = all(tuple(o.shape) == tuple(batch) for o in out)
+            if len(out) != 3 or not shapes_ok or max(es) > 1e-7:
+                chk.violation(tcid, f"SLQ with an orthonormal probe set vs dense traces [logdet, tr A^-1, tr A]: errors {['%.1e' % x for x in es]}, shapes ok={shapes_ok}", payload)
             # masking, directly against torch.linalg.eigh: a negative Ritz value becomes 1 and its eigenvector COLUMN is zeroed
             for variant, shift in (("one-negative", None), ("several-negative", 2.5), ("none-negative", 0.0)):
                 for dt2 in (F64, F32):
@@ -863,6 +989,7 @@ def run(chk):
     run_special(chk, seed, corr_lines)
     run_mixed(chk, seed, corr_lines)
     run_ops(chk, seed, post_lines)
+    run_scaled(chk, seed)
     run_slq(chk, seed)
     check_corr(chk, corr_lines)
     check_post(chk, post_lines)
@@ -896,6 +1023,8 @@ def replay(chk, payload):
     elif p["kind"] == "mixed":
         run_mixed(chk, seed, corr)
         check_corr(chk, corr)
+    elif p["kind"] == "scaled":
+        run_scaled(chk, seed)
     elif p["kind"] == "ops":
         run_ops(chk, seed, post)
         check_post(chk, post)
